@@ -74,6 +74,15 @@ def dims_of(prog):
             d = max(d, i['d'])
     return d
 
+def uses_inbreeding(prog):
+    for i in prog:
+        if i['op'] == 'if':
+            if uses_inbreeding(i['then']) or uses_inbreeding(i['else']):
+                return True
+        elif i['op'] == 'fromphi_inb':
+            return True
+    return False
+
 def run_jobs(jobs, nproc=6, timeout=1500):
     """spread the jobs over nproc interpreter processes (longest first, round-robin)"""
     if not jobs:
@@ -100,9 +109,9 @@ def run(ctx):
     ctx.assumptions += [
         'documented parameter bounds: nu in [1e-2,100], T in [0,3], m in [0,10], fractions in (0,1); the kinds are read off the declared names (nu*: >0, T*, m*: >=0, s/f/F: in (0,1), gamma*: free)',
         'numerical runs use short times (the number of time steps is capped) so that the quick tier stays within minutes',
-        'non-negativity is asserted up to -1e-9*max on a grid that resolves the model: a coarse-grid negative entry is re-run on finer grids and is a violation only if it persists on the finest one',
+        'non-negativity is asserted up to -1e-9*max on a grid that resolves the model: a run with a negative entry is repeated on grids of about 2x and 4x the points; it is a violation unless the negative part vanishes or shrinks by at least 0.6 per refinement and ends below 1e-3 of the largest entry (observed on the unchanged tree: factor 0.25-0.5 per doubling, i.e. discretisation error of the central differences for migration/selection)',
         'nesting pairs agree to 1e-10 relative to the largest entry (observed: 0 or ~1e-16 on the unchanged tree)',
-        'label exchange of a symmetric model holds up to the operator-splitting error of the alternating-direction scheme; required: error at timescale_factor/4 <= 0.6 x error at timescale_factor, or both below 1e-9']
+        'label exchange of a symmetric model holds up to the operator-splitting error of the alternating-direction scheme; required: error at timescale_factor/64 <= 0.35 x error at timescale_factor=1e-3 (observed ratios 0.006-0.15, ideal 1/64), or below 1e-9']
     ctx.trusted += [
         'Section hypotheses of Proofs/DSLProofs.v: H_T0 (integration of zero duration returns the density; proved for the drivers of Model/NDSweep.v as C15_zero_duration_const/_tdep), H_pulse0 (a pulse of proportion 0 moves nothing; checked numerically through the f=0 nesting pairs)',
         'hypotheses E_* of the relabelling theorem: the numerical layer commutes with exchanging population labels (true of the diffusion, approximately of the alternating-direction scheme; measured at two time steps)',
@@ -183,6 +192,11 @@ def run(ctx):
             sg = [parse_point_value(pr['point'][n], s['param_names']) for n in c['param_names']]
         except (KeyError, ValueError) as e:
             ctx.obligation('nest:%s' % pr['id'], False, 'translator', 'nesting point does not fit the current parameter names: %r' % (e,))
+            if pr.get('expect') == 'finding':
+                ctx.obligations[-1]['known_key'] = pr.get('key')      # e.g. the simple model lacks the parameter altogether
+            else:
+                ctx.violation('nesting pair %s cannot be formed with the current parameter names: %r' % (pr['id'], e), data={'pair': pr},
+                              key=None, no_input=True, broken='nest:%s' % pr['id'])
             continue
         pair_sg[pr['id']] = sg
         A = M.assum_of(s['param_names'])
@@ -230,23 +244,25 @@ def run(ctx):
     rng = ctx.rng
     jobs = []
     meta = {}
-    budget = ctx.pick(1500, 12000)
+    budget = ctx.pick(4000, 15000)
     sfs = [(key, r) for key, r in sorted(progs.items()) if r['kind'] == 'sfs']
     msc = [(key, r) for key, r in sorted(progs.items()) if r['kind'] == 'mscore']
     # functions that could not be translated are still run (by name) so that a failing input can be shown
-    nvec = ctx.pick(1, 4)
+    nvec = ctx.pick(3, 6)
     def grid_for(d, fine=False):
         if d >= 3:
-            return (rng.choice([12, 14]), [20, 30])
+            return (rng.choice([12, 14]), [24, 40])
         if d == 2:
-            return (rng.choice([16, 20, 24]), [40, 64])
-        return (rng.choice([16, 20, 24]), [48, 96])
+            return (rng.choice([16, 20, 24]), [44, 88])
+        return (rng.choice([16, 20, 24]), [48, 96, 192])
     for key, r in sfs:
         d = dims_of(r['prog'])
         names = r['param_names']
         for v in range(nvec):
             p = gen_params(rng, names, budget if d < 3 else budget // 2, Tmax=3.0)
             ns = [rng.choice([4, 5, 6]) for _ in range(d)]
+            if uses_inbreeding(r['prog']):
+                ns = [rng.choice([4, 6]) for _ in range(d)]      # sample sizes must be multiples of the ploidy (2)
             pts, refine = grid_for(d)
             jid = 'model|%s|%d' % (key, v)
             jobs.append({'id': jid, 'kind': 'model', 'file': r['file'], 'name': r['name'], 'params': p, 'ns': ns, 'pts': pts,
@@ -274,16 +290,31 @@ def run(ctx):
                 jobs.append({'id': jid, 'kind': 'model', 'file': fn[0]['file'], 'name': fn[0]['name'], 'params': p, 'ns': [4] * d, 'pts': 12, '_cost': 10})
                 meta[jid] = (key, {'name': fn[0]['name'], 'file': fn[0]['file'], 'param_names': names, 'broken': why}, p, [4] * d, 12)
 
+    # a model that failed the well-formedness obligation: look for a parameter without any effect on the result
+    for key, why in wf_failed.items():
+        r = progs[key]
+        if r['kind'] != 'sfs':
+            continue
+        names = r['param_names']; d = dims_of(r['prog'])
+        if len(r['unpacked']) != len(names):
+            continue          # arity mismatch: the model run itself demonstrates it
+        A = M.assum_of(names)
+        nv = M.prog_vars(N.norm(A, r['prog']))
+        exp = data.get('ineffective_params', {}).get(r['name'], [])
+        for i, nme in enumerate(names):
+            if i in nv or nme in exp:
+                continue
+            p = gen_params(rng, names, 600)
+            q = list(p); q[i] = (p[i] + 1.0) * 1.37 if M.kind_of(nme) != 'frac' else (0.3 if p[i] > 0.5 else 0.7)
+            jid = 'probe|%s|%s' % (key, nme)
+            jobs.append({'id': jid, 'kind': 'pair', 'cfile': r['file'], 'cname': r['name'], 'sfile': r['file'], 'sname': r['name'],
+                         'cparams': q, 'sparams': p, 'ns': [4] * d, 'pts': 12 if d >= 3 else 16, '_cost': 100})
+            meta[jid] = (key, nme, p, q, None)
+
     # nesting pairs: all in thorough; in quick the findings, every pair whose obligation failed, and a rotating subset
     pairs = [pr for pr in data['pairs'] if pr['id'] in pair_sg]
     chosen = []
-    if ctx.quick:
-        must = [pr for pr in pairs if pr.get('expect') == 'finding' or not nest_ok.get(pr['id'], False)]
-        rest = [pr for pr in pairs if pr not in must]
-        rng.shuffle(rest)
-        chosen = must + rest[:70]
-    else:
-        chosen = pairs
+    chosen = pairs           # every committed pair in both tiers (they are cheap: small grids, short times)
     for pr in chosen:
         c, s = progs[pr['complex']], progs[pr['simple']]
         d = dims_of(s['prog'])
@@ -298,11 +329,6 @@ def run(ctx):
             meta[jid] = (pr, ps, pc, ns, pts)
     # symmetric models
     syms = [sm for sm in data['symmetric'] if sm['model'] in progs]
-    if ctx.quick:
-        must = [sm for sm in syms if not sym_ok.get(sm['model'], False)]
-        rest = [sm for sm in syms if sm not in must]
-        rng.shuffle(rest)
-        syms = must + rest[:12]
     for sm in syms:
         r = progs[sm['model']]
         names = r['param_names']
@@ -311,7 +337,7 @@ def run(ctx):
             sg = [parse_point_value(sm['exchange'][n], names) for n in names]
         except (KeyError, ValueError):
             continue
-        p = gen_params(rng, names, budget // 4 if d < 3 else budget // 8)
+        p = gen_params(rng, names, 300 if d < 3 else 150)
         # moderate migration so that the splitting error is visible but the coarse grid still resolves the model
         p = [min(v, 3.0) if n.startswith('m') else v for n, v in zip(names, p)]
         p2 = [N.evaluate(e, p) for e in sg]
@@ -319,7 +345,7 @@ def run(ctx):
         perm = sm['perm'].get(str(d), list(range(d)))
         jid = 'sym|%s' % sm['model']
         jobs.append({'id': jid, 'kind': 'sym', 'file': r['file'], 'name': r['name'], 'params': p, 'params2': p2, 'ns': ns, 'perm': perm,
-                     'pts': 12 if d >= 3 else 16, 'tfs': [1e-3, 2.5e-4], '_cost': 12 * ((12 if d >= 3 else 16) ** d)})
+                     'pts': 12 if d >= 3 else 16, 'tfs': [1e-3, 1.5625e-5], '_cost': 12 * ((12 if d >= 3 else 16) ** d)})
         meta[jid] = (sm, p, p2, ns, perm)
 
     if ctx.replay:
@@ -367,10 +393,17 @@ def run(ctx):
                 coarse_neg += 1
                 ctx.count('coarse_grid_negative_entries')
             if last['finite'] and last['min'] is not None:
-                ratio = -last['min'] / last['max'] if last['max'] else 0.0
-                worst_neg = max(worst_neg, ratio)
-                if last['min'] < -NEG_TOL * last['max']:
-                    bad.append('negative entry %.3g (max %.3g) persisting on the finest grid pts=%d' % (last['min'], last['max'], last['pts']))
+                negs = [max(0.0, -t['min'] / t['max']) if t['max'] else 0.0 for t in tries]
+                worst_neg = max(worst_neg, negs[-1])
+                if negs[-1] > NEG_TOL:
+                    # still negative on the finest grid: discretisation error shrinks under refinement (observed factor
+                    # 0.25-0.5 per doubling of the grid); anything that does not shrink, or is gross, is a violation
+                    shrinking = len(negs) >= 2 and all(b <= 0.6 * a for a, b in zip(negs[:-1], negs[1:])) and negs[-1] < 1e-3
+                    if shrinking:
+                        ctx.count('negative entries shrinking under grid refinement (discretisation error)')
+                    else:
+                        bad.append('negative entry %.3g (max %.3g) on the finest grid pts=%d, not shrinking under refinement: %s' % (
+                            last['min'], last['max'], last['pts'], ['%.2e' % x for x in negs]))
             ok = not bad
             ctx.obligation('run %s: Spectrum of shape ns+1, finite, non-negative, extrap_x set, corners masked' % jid, ok, 'predicate', '; '.join(bad))
             if not ok:
@@ -420,6 +453,15 @@ def run(ctx):
                 ctx.violation('%s%r differs from %s%r by %.3g of the largest entry (ns=%s, pts=%d): %s is not nested at %s' % (
                               cn, tuple(pc), sn, tuple(ps), rel, ns, pts, sn, {k: v for k, v in pr.get('point', {}).items() if k != v}),
                               data={'job': job, 'result': r, 'pair': pr}, key=pr.get('key') if fnd else 'nesting:%s' % pr['id'])
+        elif kind == 'probe':
+            key, nme, p, q, _ = m if m[0] is not None else (jid.split('|')[1], jid.split('|')[2], job['sparams'], job['cparams'], None)
+            name = key.split(':')[-1]
+            ctx.case()
+            same = 'error' not in r and r.get('rel') == 0.0
+            ctx.obligation('probe %s: changing %s changes the spectrum' % (key, nme), not same, 'predicate')
+            if same:
+                ctx.violation('%s: parameter %s has no effect: %r and %r give the identical spectrum' % (name, nme, tuple(p), tuple(q)),
+                              data={'job': job, 'result': r}, key='ineffective-param:%s:%s' % (name, nme))
         elif kind == 'sym':
             sm, p, p2, ns, perm = m if m[0] is not None else ({'model': jid.split('|')[1]}, job['params'], job['params2'], job['ns'], job['perm'])
             ctx.count('symmetry_runs')
@@ -429,12 +471,14 @@ def run(ctx):
                 ctx.violation('symmetric model %s under label exchange: %s' % (sm['model'], r.get('error')), data={'job': job, 'result': r}, key='symmetry:%s' % sm['model'].split(':')[-1])
                 continue
             e1, e2 = r['rel']
-            ok = (e1 < 1e-9 and e2 < 1e-9) or (e2 <= 0.6 * e1 and e1 < 0.2)
+            ok = e2 < 1e-9 or (e2 <= 0.35 * e1 and e1 < 0.05)
             ctx.count('symmetry exact (<1e-9)' if e1 < 1e-9 else 'symmetry up to splitting error')
+            if e1 > 0:
+                ctx.stats['worst_symmetry_error_ratio'] = max(ctx.stats.get('worst_symmetry_error_ratio', 0.0), e2 / e1)
             ctx.obligation('numeric %s: label exchange = transposed spectrum up to a splitting error that shrinks with the time step' % jid, ok, 'predicate',
-                           'errors %.3g (timescale_factor 1e-3), %.3g (2.5e-4)' % (e1, e2))
+                           'errors %.3g (timescale_factor 1e-3), %.3g (1.5625e-5)' % (e1, e2))
             if not ok:
-                ctx.violation('%s%r with labels exchanged (%r, ns permuted by %s) differs from the transposed spectrum by %.3g at timescale_factor=1e-3 and %.3g at 2.5e-4: not a splitting error' % (
+                ctx.violation('%s%r with labels exchanged (%r, ns permuted by %s) differs from the transposed spectrum by %.3g at timescale_factor=1e-3 and %.3g at 1.5625e-5: not a splitting error' % (
                               sm['model'].split(':')[-1], tuple(p), tuple(p2), perm, e1, e2), data={'job': job, 'result': r}, key='symmetry:%s' % sm['model'].split(':')[-1])
     ctx.stats['worst_negative_over_max_on_finest_grid'] = worst_neg
     ctx.stats['coarse_grid_negative_runs'] = coarse_neg
@@ -450,6 +494,7 @@ def run(ctx):
             ctx.violation('model %s: %s' % (key, why), data={'model': key, 'reason': why}, key=None, no_input=True, broken='translate %s' % key)
     for key, why in wf_failed.items():
         name = key.split(':')[-1]
+        viol_keys = {v['key'] for v in ctx.violations}
         if not any(k and k.endswith(':' + name) or (k and (':' + name + ':') in k) for k in viol_keys):
             # well-formedness broken although every numerical predicate passed: search result is negative
             ctx.violation('model %s is not well-formed: %s' % (key, why), data={'model': key, 'reason': why}, key='wf:%s' % name,
